@@ -9,6 +9,9 @@
 #include "hdf.h"
 #include "h4v.h"
 #include "memio.h"
+#ifndef TAILDD
+#define TAILDD 0
+#endif
 H4V_IN_ARR(uint8_t, pay, 40);
 static unsigned char base[MEMIO_DISK_SZ];
 static long          base_size;
@@ -61,6 +64,10 @@ static void check_P(const char *path)
     for (i = 0; i < 6; i++) H4V_ASSERT(out[i] == pay[i], "C17.S1.P.data0: pre-existing element changed");
     H4V_ASSERT(Hgetelement(f, 1000, 2, out) == 3, "C17.S1.P.len1");
     for (i = 0; i < 3; i++) H4V_ASSERT(out[i] == pay[6 + i], "C17.S1.P.data1: pre-existing element changed");
+#if TAILDD
+    H4V_ASSERT(Hgetelement(f, 1002, 1, out) == 6, "C17.S1.P.lendup: pre-existing alias descriptor lost");
+    for (i = 0; i < 6; i++) H4V_ASSERT(out[i] == pay[i], "C17.S1.P.datadup: pre-existing alias changed");
+#endif
 #if WITHV
     H4V_ASSERT(Vstart(f) == SUCCEED, "C17.S1.P.vstart");
     r = VSfind(f, "old");
@@ -89,6 +96,9 @@ void harness(void)
     H4V_ASSERT(Hputelement(f, 1000, 1, pay, 6) == 6 && Hputelement(f, 1000, 2, pay + 6, 3) == 3, "C17.S1.A.put");
 #if FULLBLK /* a third element: with ndds=4 the only descriptor block is then exactly full */
     H4V_ASSERT(Hputelement(f, 1000, 3, pay + 33, 2) == 2, "C17.S1.A.put3");
+#endif
+#if TAILDD /* one more descriptor without data of its own: the new descriptor block it needs is the last thing in the file */
+    H4V_ASSERT(Hdupdd(f, 1002, 1, 1000, 1) == SUCCEED, "C17.S1.A.dup");
 #endif
 #if WITHV
     H4V_ASSERT(Vstart(f) == SUCCEED, "C17.S1.A.vstart");
